@@ -162,6 +162,10 @@ def _run_structural(ctx):
         # every call must go through the memoised wrapper, never to the raw function
         raw = [c for f in [tw] + list(tw.nested.values()) for c in _calls(f.node) if isinstance(c.func, ast.Name) and c.func.id == visit.name]
         roots_ok = roots_ok and not raw
+    # "with spec hashing on their current specs are recorded": recorded means saved - the store persists its table on every exit, whatever was on disk before
+    from .persist import rule_close_writes, rule_exit_persists
+    rule_exit_persists(ctx, r3, ("spec hashes",))
+    rule_close_writes(ctx, r3, ("spec hashes",))
     r3.check(roots_ok, tcon + "::roots", "every requested endpoint is visited", "touch_workflow does not visit every requested endpoint", tw.where)
     rule_cone_selection(ctx, r3)
     rule_exit_persists(ctx, r3, ("spec hashes",))
